@@ -473,7 +473,10 @@ func runEos(t *testing.T, tk []string) string {
 		delete(stops, i)
 	}
 	wg.Wait()
-	time.Sleep(time.Second)
+	// a member whose End failed (or that was stopped inside a transaction) leaves its transaction open at the
+	// coordinator until the transaction timeout (20 s) aborts it; until then the last stable offset of the output
+	// topic is pinned and the read_committed view below would end early
+	time.Sleep(25 * time.Second)
 	if committedN.Load() < int64(nrec) {
 		log.Add("ERRunfinished")
 	}
